@@ -98,10 +98,13 @@ Definition monitors (k : case) : list bool :=
         snd (fst (walk tol 0 false ev));     (* a chain is entered at its first point (no exposed approach move) *)
         snd (walk tol 0 false ev);           (* chains hold nothing but moves *)
         if has_blocks
-        then gaps_ok (nano (k_dz k) + 2 * 1000) levels
+        (* the positioning target is printed with the configured decimals, the $ZCURR bookkeeping with 6: one unit of the
+           last printed decimal of slack on top of the accumulated rounding of the increments *)
+        then gaps_ok (nano (k_dz k) + 2 * 1000 + tol_of (k_cfg k)) levels
              && match levels with
                 | [] => false
-                | lo :: _ => (lo <=? nano (k_zlo k) + nano (k_slack k)) && (nano (k_zhi k) - nano (k_dz k) - nano (k_slack k) <=? last levels lo)
+                | lo :: _ => (lo <=? nano (k_zlo k) + nano (k_slack k) + tol_of (k_cfg k))
+                             && (nano (k_zhi k) - nano (k_dz k) - nano (k_slack k) - tol_of (k_cfg k) <=? last levels lo)
                 end
         else true ]
   | _, _ => [false; true; true; true; true; true; true; true]
